@@ -49,7 +49,8 @@ PARTIAL = ["numerical clauses: that Q R = M, U S Vh = M entrywise, that Q/U/Vh a
            "that np.transpose / np.reshape / np.pad / np.dot implement that value-level model is trusted (DESIGN.md section 2) "
            "and exercised by the matidx comparison, the einsum reconstruction and the `tdot` family; GIVEN that model, "
            "numpy.tensordot (its Python implementation transcribed as arrTensordot) is PROVED to compute the labelled "
-           "contraction Ptn.Ein.sumPairs / Expr.dot (arr_tensordot_entry, arr_tensordot_is_sumPairs, arr_tensordot_is_dot), "
+           "contraction Ptn.Ein.sumPairs / Expr.dot (arr_tensordot_entry, arr_tensordot_is_sumPairs, arr_tensordot_is_dot; whole "
+           "programs of nested calls: tensordot_program_is_eval), "
            "to accept exactly the well-formed requests (arr_tensordot_accepts_iff), and a transposition to be a relabelling "
            "(arr_transpose_relabel)"]
 ASSUMPTIONS = ["leg lists contain non-negative Python ints (NumPy would also accept negative axes)",
